@@ -127,6 +127,7 @@ func (c *Conn) loop(ctx context.Context) {
 				n, err := c.swarm.askHub.Deliver(ctx, resp, msg)
 				if err != nil {
 					log.Println(err)
+					n = -1
 				}
 				ok := n >= 0
 				if n < 0 {
